@@ -495,6 +495,40 @@ func runC18(w *fw.Worker) {
 	}
 	var mu sync.Mutex
 	var wg sync.WaitGroup
+	var gapJobs []c18Case
+	// record books one executed case (called with mu held during the parallel phase)
+	record := func(j c18Case, v *fw.Violation, hit bool) {
+		w.Res.Evaluations++
+		w.Res.Distinct++
+		if j.Fault != "" {
+			w.Res.Nontrivial++
+		}
+		switch {
+		case !hit:
+			gaps = append(gaps, fmt.Sprintf("%+v %s #%d %s", j.Config, j.Fault, j.Index, j.Syscall))
+			w.Count("gaps", 1)
+		case j.Fault == "kill":
+			w.Count("kills-injected", 1)
+		case j.Fault != "":
+			w.Count("faults-injected", 1)
+			w.Outcome(j.Syscall + ":" + j.Fault)
+		default:
+			w.Count("baselines", 1)
+		}
+		if v != nil {
+			// confirm by re-running the same case
+			for k := 0; k < 2; k++ {
+				if v2, hit2 := c18Run(j, 6); !hit2 || v2 == nil || v2.Signature != v.Signature {
+					w.Internal("HARNESS-NONDETERMINISM: C18 violation " + v.Signature + " did not reproduce for " + fmt.Sprintf("%+v", j))
+					return
+				}
+			}
+			w.AddViolation(v)
+		}
+		if j.Fault == "kill" && j.Index == 3 {
+			w.Sample(j)
+		}
+	}
 	sem := make(chan struct{}, 14)
 	for _, j := range jobs {
 		if w.Expired() {
@@ -509,39 +543,18 @@ func runC18(w *fw.Worker) {
 			v, hit := c18Run(j, 6)
 			mu.Lock()
 			defer mu.Unlock()
-			w.Res.Evaluations++
-			w.Res.Distinct++
-			if j.Fault != "" {
-				w.Res.Nontrivial++
+			if !hit {
+				gapJobs = append(gapJobs, j) // tried again below, one at a time on a quiet machine
+				return
 			}
-			switch {
-			case !hit:
-				gaps = append(gaps, fmt.Sprintf("%+v %s #%d %s", j.Config, j.Fault, j.Index, j.Syscall))
-				w.Count("gaps", 1)
-			case j.Fault == "kill":
-				w.Count("kills-injected", 1)
-			case j.Fault != "":
-				w.Count("faults-injected", 1)
-				w.Outcome(j.Syscall + ":" + j.Fault)
-			default:
-				w.Count("baselines", 1)
-			}
-			if v != nil {
-				// confirm by re-running the same case
-				for k := 0; k < 2; k++ {
-					if v2, hit2 := c18Run(j, 6); !hit2 || v2 == nil || v2.Signature != v.Signature {
-						w.Internal("HARNESS-NONDETERMINISM: C18 violation " + v.Signature + " did not reproduce for " + fmt.Sprintf("%+v", j))
-						return
-					}
-				}
-				w.AddViolation(v)
-			}
-			if j.Fault == "kill" && j.Index == 3 {
-				w.Sample(j)
-			}
+			record(j, v, true)
 		}()
 	}
 	wg.Wait()
+	for _, j := range gapJobs {
+		v, hit := c18Run(j, 25)
+		record(j, v, hit)
+	}
 	if len(gaps) > 0 {
 		sort.Strings(gaps)
 		w.NotExhaustive(fmt.Sprintf("%d of %d fault points could not be hit on the intended call after retries (thread migration): %s", len(gaps), len(jobs), fw.Trunc(strings.Join(gaps, "; "), 1500)))
